@@ -58,8 +58,20 @@ class Gen(object):
 
   def on(self, feat):
     if self.features is None:
-      return feat not in ('loopelse',)     # while/else, for/else: documented as unsupported
+      # while/else, for/else: documented as unsupported; 'defret' (bodies that END in an unconditional return) is
+      # opt-in so that the default program streams of every stand-in stay what they were
+      return feat not in ('loopelse', 'defret')
+    if feat == 'defret':
+      return 'defret' in self.features
+    if 'defret' in self.features and len(self.features) == 1:
+      return feat not in ('loopelse',)     # features=('defret',): everything of the default space plus defret
     return feat in self.features
+
+  def maybe_ret(self, body, vars_, ind2, p=0.3):
+    """with 'defret': the body may end in an unconditional return (a branch that definitely returns)"""
+    if self.on('defret') and self.rnd.random() < p:
+      return body + ['%sreturn %s' % (ind2, self.expr(vars_))]
+    return body
 
   # ------------------------------------------------------------------ expressions
   def tk(self):
@@ -165,7 +177,7 @@ class Gen(object):
     k = self.rnd.choice(kinds)
     if k == 'if':
       body, _ = self.block(vars_, ind2, depth + 1, in_loop, budget)
-      return ['%sif %s:' % (ind, self.cond(vars_))] + body, []
+      return ['%sif %s:' % (ind, self.cond(vars_))] + self.maybe_ret(body, vars_, ind2), []
     if k == 'ifelse':
       test = self.cond(vars_)
       b1, v1 = self.block(vars_, ind2, depth + 1, in_loop, budget)
@@ -176,7 +188,7 @@ class Gen(object):
       else:
         v3 = v1
       b2, v2 = self.block(vars_, ind2, depth + 1, in_loop, budget)
-      out += ['%selse:' % ind] + b2
+      out += ['%selse:' % ind] + self.maybe_ret(b2, vars_, ind2, 0.2)
       return out, [v for v in v1 if v in v2 and v in v3 and v not in vars_]
     if k == 'while':
       self.fuel += 1
@@ -213,13 +225,16 @@ class Gen(object):
       return [header] + body, []
     if k == 'try_finally':
       body, _ = self.block(vars_, ind2, depth + 1, in_loop, budget)
+      body = self.maybe_ret(body, vars_, ind2, 0.2)
       fin, fv = self.block(vars_, ind2, depth + 1, False, [0])
       return ['%stry:' % ind] + body + ['%sfinally:' % ind] + fin, [v for v in fv if v not in vars_]
     if k == 'try_except':
       body, _ = self.block(vars_, ind2, depth + 1, in_loop, budget)
       raiser = ['%sif %s:' % (ind2, self.cond(vars_)), '%s  raise ValueError(%s)' % (ind2, self.atom(vars_))]
       body = (raiser + body) if self.rnd.random() < 0.5 else (body + raiser)
+      body = self.maybe_ret(body, vars_, ind2, 0.35)
       hb, _ = self.block(vars_, ind2, depth + 1, in_loop, [0])
+      hb = self.maybe_ret(hb, vars_, ind2, 0.15)
       if 'D6' in self.avoid or self.rnd.random() < 0.5:
         head = '%sexcept ValueError:' % ind
       else:
